@@ -158,6 +158,7 @@ func verifAssume(cond bool) {}
 //@   ghost field lastFuncErr error
 
 //@ spec fn b64text(s string) string = uninterpreted
+//@ spec fn b64dec(s string) string = uninterpreted
 //@ spec fn matchMsg(h MessageHandler, e *Message) bool = uninterpreted
 //@ spec fn rec firstMsg(hs []MessageHandler, e *Message, k int) int = ite(k >= len(hs), -1, ite(matchMsg(hs[k], e), k, firstMsg(hs, e, k+1)))
 
@@ -994,9 +995,22 @@ func verifAssume(cond bool) {}
 //@   checks [C03] @plainverdict istype(authentication, *PlainAuthentication) && result1 == nil ==> ncalls("role:plainAuthenticator") == 1 && result0 == resultof("role:plainAuthenticator", 0)
 //@   checks [C03] @keyverdict istype(authentication, *KeyAuthentication) && result1 == nil ==> ncalls("role:keyAuthenticator") == 1 && result0 == resultof("role:keyAuthenticator", 0)
 //@   checks [C03] @externalverdict istype(authentication, *ExternalAuthentication) && result1 == nil ==> ncalls("role:externalAuthenticator") == 1 && result0 == resultof("role:externalAuthenticator", 0)
+//@   checks [C03] @plainpresented ncalls("role:plainAuthenticator") > 0 ==> argof("role:plainAuthenticator", 1) == identity && argof("role:plainAuthenticator", 2) == b64dec(authentication.(*PlainAuthentication).Password)  ## judged on the identity and the (decoded) password this peer presented
+//@   checks [C03] @keypresented ncalls("role:keyAuthenticator") > 0 ==> argof("role:keyAuthenticator", 1) == identity && argof("role:keyAuthenticator", 2) == b64dec(authentication.(*KeyAuthentication).Key)
+//@   checks [C03] @externalpresented ncalls("role:externalAuthenticator") > 0 ==> argof("role:externalAuthenticator", 1) == identity && argof("role:externalAuthenticator", 2) == authentication.(*ExternalAuthentication).Token && argof("role:externalAuthenticator", 3) == authentication.(*ExternalAuthentication).Issuer
 //@   checks [C03] @transportnever istype(authentication, *TransportAuthentication) ==> result1 != nil
 //@   checks [C03] @unknownschemerefused !istype(authentication, *GuestAuthentication) && !istype(authentication, *PlainAuthentication) && !istype(authentication, *KeyAuthentication) && !istype(authentication, *ExternalAuthentication) ==> result1 != nil
 
+//@ func (*PlainAuthentication).GetPasswordFromBase64 :: (a) (result0, result1)
+//@   props C03
+//@   requires a != nil
+//@   modifies nothing
+//@   ensures [C03] @decodedcredential result1 == nil ==> result0 == b64dec(a.Password)
+//@ func (*KeyAuthentication).GetKeyFromBase64 :: (a) (result0, result1)
+//@   props C03
+//@   requires a != nil
+//@   modifies nothing
+//@   ensures [C03] @decodedcredential result1 == nil ==> result0 == b64dec(a.Key)
 //@ func buildAuthenticate :: (plainAuth, keyAuth, externalAuth) (result)
 //@   props C03
 //@   modifies nothing
